@@ -29,3 +29,19 @@ Fixpoint model_feed (ks : list N) (st : rstate) (iv : list N) (chunks : list (li
               | _ => ([v], iv')
               end
   end.
+
+(* a stream of frames written and read on one pair of chained cipher states; every frame is read by a fresh
+   reader state (as the client's receive does), each in one piece *)
+Record wframe := { w_crc : bool; w_sec : Z; w_nsec : Z; w_ms : list message }.
+Fixpoint write_stream (ks iv : list N) (fs : list wframe) : list (list N) * list N :=
+  match fs with
+  | [] => ([], iv)
+  | f :: r => let '(c, iv1) := model_write ks iv (w_crc f) (w_sec f) (w_nsec f) (w_ms f) in
+              let '(cs, iv2) := write_stream ks iv1 r in (c :: cs, iv2)
+  end.
+Fixpoint read_stream (ks iv : list N) (cs : list (list N)) : list verdict * list N :=
+  match cs with
+  | [] => ([], iv)
+  | c :: r => let '(_, iv1, v) := model_read_step ks rinit iv c in
+              let '(vs, iv2) := read_stream ks iv1 r in (v :: vs, iv2)
+  end.
